@@ -8,6 +8,8 @@ An item is a tuple  (logdir, pos, val, waitfor, sleep_us):
            without consulting a clock: completion is *caused*, not timed
   sleep_us plain latency (seeded), used where no completion order is imposed
 
+The second half (h_sq / h_tab / h_chk, TABLE) serves the call histories of PoolHist.tla.
+
 Every worker process appends to its own file  <logdir>/w<pid>.ndjson  the events
 start / saw / finish with a per-process sequence number; events of different
 processes are never ordered by time.  The only use of the clock is a liveness
@@ -60,6 +62,34 @@ def task(item):
     _log(d, "finish", pos)
     open(_marker(d, pos), "w").close()
     return pm_f(val)
+
+
+# ---- call histories (PoolHist.tla) -------------------------------------------------------
+# TABLE is the module-level state of the calling process that the history task functions
+# read (PoolHist.tla: s.tab).  The adapter re-binds it or overwrites it in place BETWEEN
+# pmap calls; a call must see the table as it is in the parent when the call is made.
+# Items of history calls are plain ints v (index into the table).
+POISON = 99
+TABLE = [1, 2, 3]
+
+
+def h_sq(v):
+    return v * v + 1
+
+
+def h_tab(v):
+    time.sleep(((v * 7) % 3) * 0.0002)      # uneven latencies: later items may finish first
+    return TABLE[v]
+
+
+def h_chk(v):
+    x = TABLE[v]
+    if x == POISON:
+        raise ValueError("poisoned table entry %d" % v)
+    return x + 1
+
+
+HIST_FNS = {"sq": h_sq, "tab": h_tab, "chk": h_chk}
 
 
 def read_streams(d):
